@@ -47,6 +47,7 @@ pub const PROPS: &[Prop] = &[
             (C_WAKE_EAGAIN_ALIAS, "wake_found_pipe_full"),
             (E_ITER_FULL_PIPE, "fault:self_pipe_full_at_start"),
             (E_ITER_REACTOR_TURNS, "fault:reactor_turned_by_another_thread"),
+            (E_ITER_CB_ERRORS, "fault:readiness_callback_returned_error"),
         ],
         real: ITER_REAL,
         stub: ITER_STUB,
@@ -136,6 +137,9 @@ struct World {
     cb_ran: bool,
     cb_last: bool,
     armed: bool,
+    /// the readiness callback's last answer in this poll_signal call was an (injected) error
+    cb_err: bool,
+    cb_fault_pct: u32,
     probe_fd: i32,
     wake_stack: Vec<Vec<(u64, u64)>>,
     post_close_calls: u32,
@@ -558,12 +562,27 @@ where
                 // stub reactor: non-blocking 1-byte read; otherwise arm a wake-up on the fd
                 let mut b = [0u8; 1];
                 sim::sp_user();
+                // fault: the caller's reactor fails this readiness query (the callback is the
+                // caller's code and may return any io::Error; nothing is armed then)
+                let pct = w().cb_fault_pct;
+                if pct > 0 && !w().cb_err && sim::coin(sim::CK_FAULT, pct, 100) {
+                    let _g = ShimGuard::new();
+                    let x = w();
+                    x.cb_ran = true;
+                    x.cb_last = false;
+                    x.armed = false;
+                    x.cb_err = true;
+                    sim::count(E_ITER_CB_ERRORS, 1);
+                    sim::log(UE_CALLBACK, 2, 0);
+                    return Err(Error::from(std::io::ErrorKind::Interrupted));
+                }
                 let r = unsafe { libc::recv(read.as_raw_fd(), b.as_mut_ptr() as *mut _, 1, libc::MSG_DONTWAIT) };
                 let _g = ShimGuard::new();
                 let x = w();
                 x.cb_ran = true;
                 x.cb_last = r > 0;
                 x.armed = r <= 0;
+                x.cb_err = false;
                 sim::log(UE_CALLBACK, (r > 0) as u64, 0);
                 Ok(r > 0)
             };
@@ -573,6 +592,7 @@ where
                     x.cb_ran = false;
                     x.cb_last = false;
                     x.armed = false;
+                    x.cb_err = false;
                 }
                 call_begin();
                 let r = it.poll_signal(&mut cb);
@@ -594,6 +614,15 @@ where
                         sim::log(UE_POLL, 2, 0);
                         sim::count(E_ITER_PENDING, 1);
                         let (ran, last, armed) = (w().cb_ran, w().cb_last, w().armed);
+                        if w().cb_err {
+                            let _g = ShimGuard::new();
+                            sim::report(
+                                "C11",
+                                "pending-without-armed-wakeup",
+                                "poll_signal returned Pending although the readiness callback's last answer in that call was an error (not `nothing available`): the caller has armed no wake-up and would never be polled again",
+                                false,
+                            );
+                        }
                         if !ran || last {
                             let _g = ShimGuard::new();
                             sim::report(
@@ -613,7 +642,13 @@ where
                             sighook_shim::hook::block_until_readable(fd);
                         }
                     }
-                    PollResult::Err(e) => sim::harness_error(&format!("poll_signal returned an error: {}", e)),
+                    PollResult::Err(e) => {
+                        // the injected callback error handed through: the caller polls again
+                        if !w().cb_err {
+                            sim::harness_error(&format!("poll_signal returned an error: {}", e));
+                        }
+                        sim::log(UE_POLL, 4, 0);
+                    }
                 }
             }
             drop(it);
@@ -971,6 +1006,8 @@ pub fn run(spec: &RunSpec) -> ! {
         cb_ran: false,
         cb_last: false,
         armed: false,
+        cb_err: false,
+        cb_fault_pct: 0,
         probe_fd: -1,
         wake_stack: (0..sim::MAX_THREADS).map(|_| Vec::with_capacity(8)).collect(),
         post_close_calls: 0,
@@ -1110,6 +1147,7 @@ pub fn run(spec: &RunSpec) -> ! {
     // the consumer is gone and never obtains the signals delivered from then on
     sim::add_thread_panic_rule("Unexpected error", "C09");
     // fault at the system-call seam: the blocking self-pipe read is interrupted (EINTR) now and then
+    w().cb_fault_pct = [0, 0, 10, 25][sim::work(4) as usize];
     sim::set_recv_eintr_pct([0, 0, 10, 30][sim::work(4) as usize]);
 
     // ---- set-up (thread 0, sequential)
